@@ -15,7 +15,8 @@ META = {
     'technique': 'exhaustive enumeration of configuration files from an INI/value grammar against a reference parser; conf round trip; real snoopyctl binding',
     'text': 'All files of the bounded grammar (<=2 option lines over per-option value alphabets x 5 syntax styles x 10 file wrappers; numbers 0..3000 and all 2^k/10^k +-1 up to 10^15 with every suffix) '
             'are loaded through the real init path (inih + option parsers) and every option value is compared with a reference parser; length values must be monotone in the number; '
-            'the values printed in `snoopyctl conf` format are fed back and must reproduce themselves; the real snoopyctl binary (dlopen of a libsnoopy.so built from the tree) is compared on all distinct value sets.',
+            'the values printed in `snoopyctl conf` format are fed back and must reproduce themselves; the real snoopyctl binary (dlopen of a libsnoopy.so built from the tree) is compared on all distinct value sets.'
+            " Also: zero-padded numbers, the documentation's own example lines, sections whose names are near misses of 'snoopy', a locale with other case rules, a build with error logging on by default.",
     'note': 'Where the statement is silent (continuation lines, garbage after a number, invalid value after a valid one) the reference marks the option loose and it is not compared. '
             'Reference parser is the trusted oracle (engine/refini.py).',
 }
